@@ -152,3 +152,28 @@ From J1939P Require Import FlowProofs OrderProofs.
 Theorem C02_state_before_send : never_commits_after_send order_send22 /\ never_commits_after_send order_burst22.
 Proof. split; [exact order_send22_ok|exact order_burst22_ok]. Qed.
 Print Assumptions C02_state_before_send.
+
+From J1939P Require Net21 Net22 Net22Proofs.
+(* T02.9 — end to end on the FD layer: two model nodes on one bus (Net22.v: frames first, then both job threads; the clock
+   advances only when the network is idle).  A calls send_pgn with ANY payload of more than 60 bytes for B's address, with
+   ANY window sizes on the two sides: after finitely many steps nothing is queued, no session is left on either side, the
+   session number is back in A's pool, B's subscribers have been called exactly once each with exactly p, and A has put on
+   the wire exactly RTS, the data frames of all segments in order (as the model's own frame builder makes them), and the
+   end-of-message status.  The network model itself is run against two real FD stacks at every check. *)
+Theorem C02_closed_loop_delivers : forall prio sa dest dp pf p t0 A0 B0,
+  0 <= prio < 8 -> 0 <= sa < 255 -> 0 <= dest < 255 -> 0 <= pf < 240 -> 0 <= dp < 2 -> 60 < len p < 16777216 -> 0 < t0 ->
+  f_snd A0 = [] /\ f_rcv A0 = [] /\ f_mpg A0 = [] /\ n_timers (base A0) = [] /\ n_cmdt_iv (base A0) = None /\
+    accepts (base A0) sa = true /\ 1 <= n_maxp (base A0) < 256 /\ f_rts A0 = repeat true tp22_pool_rts ->
+  f_snd B0 = [] /\ f_rcv B0 = [] /\ f_mpg B0 = [] /\ n_timers (base B0) = [] /\ accepts (base B0) dest = true /\ 1 <= n_maxp (base B0) ->
+  let pv := dp * 65536 + pf * 256 in
+  let ns := ((length p + 59) / 60)%nat in
+  exists j, let s := Net22.steps22 j (Net22.net22_send (Net22.net22_0 A0 B0 t0) dp pf dest prio sa p) in
+    Net22.pa s = [] /\ Net22.pb s = [] /\ f_snd (Net22.fa s) = [] /\ f_rcv (Net22.fa s) = [] /\
+    f_snd (Net22.fb s) = [] /\ f_rcv (Net22.fb s) = [] /\ f_rts (Net22.fa s) = repeat true tp22_pool_rts /\
+    Net22.evb2 s = deliveries (base B0) 7 pv sa dest p /\
+    Net22.wab2 s = tp22_rts prio sa dest 0 pv (len p) (Z.of_nat ns) (Z.min (n_maxp (base A0)) (Z.of_nat ns))
+             :: map (fun k => match dt_frame sa dest 0 (Z.of_nat k + 1) (Net22Proofs.row p k) with
+                              | Some (fr, _) => fr | None => tp22_eom_status sa dest 0 (len p) (Z.of_nat ns) pv end) (seq 0 ns)
+             ++ [tp22_eom_status sa dest 0 (len p) (Z.of_nat ns) pv].
+Proof. exact Net22Proofs.closed_loop22_delivers. Qed.
+Print Assumptions C02_closed_loop_delivers.
